@@ -95,11 +95,12 @@ CLAIMED = {
         'the same generators the result is a valid table whose rows are paired injectively with pairs (row of ta, row of tb), row 0 with (0, 0), compatibly with every generator '
         '-- the orbit of the pair of base rows in the product action -- and consequently a word fixes its row 0 exactly when it fixes row 0 of both inputs (lemma over the contract). '
         'induced_table (at T = Vec<usize>, its only instantiation) and core_table (real bodies): for a closure that is a function on views in which the inverse generator undoes the '
-        'generator, the result is a valid table whose rows are, injectively, the states reached from the start state; for core_table these are the tuples into which the generators '
-        'move the identity tuple of rows of the input, and consequently a word fixes ALL rows of the input exactly when it fixes row 0 of the core (lemma over the contract).',
+        'generator, the result is a valid TRANSITIVE table whose rows are, injectively, the states reached from the start state; for core_table these are the tuples into which the generators '
+        'move the identity tuple of rows of the input, consequently a word fixes ALL rows of the input exactly when it fixes row 0 of the core, and the rows correspond one to one to the '
+        'permutations of the rows of the input induced by words in the generators -- the row count is the order of the permutation group generated by the action (lemmas over the contract).',
    note='Trusted: Verus+Z3, vstd; all_gens by its std semantics; `for i in 0..` in desugared form (R19); the product of the two row counts is at most isize::MAX/2 (stated precondition); '
         'termination. NOT decided by contracts (bounded stand-in only): the stabiliser presentation (stabilizer.rs: HashMap / flat_map / BTreeMap::entry code outside the verifier; '
-        '"presents a group isomorphic to the stabiliser" is not a first-order postcondition); core row count = order of the generated permutation group (surjectivity onto the reachable tuples). '
+        '"presents a group isomorphic to the stabiliser" is not a first-order postcondition). '
         'HashMap operations of induced_table and the iterator chains of core_table by their std semantics through uninterpreted map views; Rust allocation bound on the number of rows.',
    ref='5 C13', technique=TECH),
  'C05': dict(
@@ -111,7 +112,7 @@ CLAIMED = {
         '(all real bodies) chamber d gets the degree r * (m_base(pi d) / r), which is m_base(pi d) whenever the orbit length r in the cover divides it. '
         'cover_for_table and trace_word (real bodies, against the imported contracts of the coset-table unit and of cover): for a valid table and facet words that are words in its '
         'generators and pairwise undo each other on its rows, the sheet map "trace the facet word from the sheet" meets the preconditions of cover, so the result is a cover with one sheet per row; '
-        'subgroup_cover and finite_universal_cover (real bodies) compose an ASSUMED fundamental_group (the syntactic part of C09: facet words mutually inverse or multiplying to a relator) with the '
+        'subgroup_cover and finite_universal_cover (real bodies; the cover belongs to a table of the presentation in which the GIVEN subgroup generators fix row 0) compose an ASSUMED fundamental_group (the syntactic part of C09: facet words mutually inverse or multiplying to a relator) with the '
         'proved coset_table and cover_for_table.',
    note='Trusted: Verus+Z3, vstd; partial_orientation (Traversal-based) assumed to return some sign vector: the contract holds whatever it returns. Precondition v * size <= usize::MAX. '
         'Not decided by contracts: that r always divides the base degree (holds for covers from coset tables of the fundamental group; depends on C09), connectedness, '
